@@ -169,12 +169,18 @@ def _producer(eng, case, front):
         verdicts = [True, False, None, 0, 1]
     chosen = {}
 
+    warming = [False]
+
     async def v2_validator(name, sig, ctx):
+        if warming[0]:
+            return types.ValidResult.PASS
         log['validator'] += 1
         chosen['v'] = verdicts[eng.choice(len(verdicts), 'verdict')]
         return chosen['v']
 
     async def v1_validator(name, sig):
+        if warming[0]:
+            return True
         log['validator'] += 1
         chosen['v'] = verdicts[eng.choice(len(verdicts), 'verdict')]
         return chosen['v']
@@ -225,7 +231,21 @@ def _producer(eng, case, front):
             digest_ok = False
     pkt = bwrap(w)
 
+    warm_pkt = None
+    if case.get('warm'):
+        # the same name was asked for before by a properly signed Interest that passed validation: no verdict, digest
+        # check or handler decision of that exchange may be reused for the next Interest
+        ws = env.make_signer(eng, 'hmac', for_interest=True) if signer is None else signer
+        warm_pkt = bytes(enc.make_interest('/p/x', enc.InterestParam(nonce=4, lifetime=4000), b'warm', ws))
+
     async def main(loop):
+        if warm_pkt is not None:
+            warming[0] = True
+            await app._receive(5, warm_pkt)
+            for _ in range(5):
+                await asyncio.sleep(0)
+            warming[0] = False
+            log.update(validator=0, handler=0, handler_args=None)
         try:
             await app._receive(5, pkt)
         except Exception as e:
@@ -313,6 +333,8 @@ def cases(tier, seed):
                         continue
                     c = {'variant': variant, 'validator': val, 'app_len': n, 'all_positions': not quick}
                     cs.append((front, c))
+                    if n <= 1:
+                        cs.append((front, dict(c, warm=True)))
                     if front == 'prod_v1' and not val and variant == 'signed':
                         cs.append((front, dict(c, default_validator='reject')))
     return cs
